@@ -9,8 +9,8 @@ EXTENDS World, TLC, Json
 
 CONSTANTS MaxLinks
 
-VARIABLES links, spell, dfs, win, two, phase
-vars == <<links, spell, dfs, win, two, phase>>
+VARIABLES links, spell, dfs, win, two, mix, phase
+vars == <<links, spell, dfs, win, two, mix, phase>>
 
 Nd(i, p, k, nm) == [id |-> i, parent |-> p, kind |-> k, name |-> nm, target |-> -3, tstyle |-> "abs"]
 Skeleton == << Nd(1, 0, "dir", "r"), Nd(2, 1, "dir", "a"), Nd(3, 2, "file", "f1"), Nd(4, 1, "dir", "b"), Nd(5, 4, "dir", "c"),
@@ -24,20 +24,20 @@ W == [nodes |-> Skeleton \o [j \in 1 .. Len(links) |-> LinkNode(j)]]
 Positions == {1, 2, 5}
 (* targets: node ids; 0 = the directory above the search root; -1 = dangling; 100 + j = link j (chains, mutual pairs) *)
 Targets == {0, 1, 2, 4, 5, 7, 9, 3, 8, -1}
-Init == links = <<>> /\ spell = "" /\ dfs = FALSE /\ win = "" /\ two = FALSE /\ phase = "links"
+Init == links = <<>> /\ spell = "" /\ dfs = FALSE /\ win = "" /\ two = FALSE /\ mix = "both" /\ phase = "links"
 AddLink == /\ phase = "links" /\ Len(links) < MaxLinks /\ Len(links) < 2
            \* (a second link may sit in the outside tree when the first one leads there: a link reached through a link, whose
            \*  relative target is relative to the real directory it is in, not to the path it was reached by)
            /\ \E at \in Positions \cup (IF Len(links) = 1 /\ links[1].to \in {7, 9} THEN {7, 9} ELSE {}),
                  to \in Targets \cup (IF Len(links) = 1 THEN {NS + 1} ELSE {}), st \in {"abs", "rel"} :
                 links' = Append(links, [at |-> at, to |-> to, style |-> st])
-           /\ UNCHANGED <<spell, dfs, win, two, phase>>
+           /\ UNCHANGED <<spell, dfs, win, two, mix, phase>>
 (* a first link pointing at the second one (chain / mutual pair) *)
 AddPair == /\ phase = "links" /\ links = <<>> /\ MaxLinks >= 2
            \* (a second link outside the root, at 7, is reachable only through the first one: a genuine chain)
            /\ \E at1 \in {2, 5}, at2 \in {1, 2, 7}, to2 \in {2, 4, 7, 9, NS + 1, -1}, st \in {"abs", "rel"} :
                 links' = << [at |-> at1, to |-> NS + 2, style |-> st], [at |-> at2, to |-> to2, style |-> st] >>
-           /\ UNCHANGED <<spell, dfs, win, two, phase>>
+           /\ UNCHANGED <<spell, dfs, win, two, mix, phase>>
 (* win: a depth window that excludes no level (one link only) - it must change nothing, wherever the link leads.            *)
 (* two: two roots, r/a and r/b, both with the option (links in both sub-trees): a real directory reached from both is still *)
 (* listed once per query.                                                                                                  *)
@@ -46,11 +46,13 @@ AddPair == /\ phase = "links" /\ links = <<>> /\ MaxLinks >= 2
 AddTriple == /\ phase = "links" /\ links = <<>> /\ MaxLinks >= 2
              /\ \E at1 \in {2, 5}, at2 \in {1, 2}, st1 \in {"abs", "rel"} :
                   links' = << [at |-> at1, to |-> NS + 2, style |-> st1], [at |-> at2, to |-> 9, style |-> "rel"], [at |-> 9, to |-> 7, style |-> "rel"] >>
-             /\ UNCHANGED <<spell, dfs, win, two, phase>>
+             /\ UNCHANGED <<spell, dfs, win, two, mix, phase>>
 Finish == /\ phase = "links" /\ links # <<>>
           /\ spell' \in {"dot", "rel", "abs"} /\ dfs' \in BOOLEAN
           /\ win' \in (IF Len(links) = 1 THEN {"", " maxdepth 9", " mindepth 1"} ELSE {""})
           /\ two' \in (IF Len(links) = 2 /\ links[1].at = 2 /\ links[2].at = 5 /\ spell' # "dot" THEN BOOLEAN ELSE {FALSE})
+          \* mix: with two roots, which of them carry the option (a real directory is still listed once per query)
+          /\ mix' \in (IF two' THEN {"both", "first", "second"} ELSE {"both"})
           /\ phase' = "done" /\ UNCHANGED links
 Next == AddLink \/ AddPair \/ AddTriple \/ Finish
 Spec == Init /\ [][Next]_vars
@@ -59,7 +61,9 @@ RootText == CASE spell = "dot" -> "'.'" [] spell = "rel" -> "'r'" [] spell = "ab
 RootA == IF spell = "rel" THEN "'r/a'" ELSE "'@N2@'"
 RootB == IF spell = "rel" THEN "'r/b'" ELSE "'@N4@'"
 Opts(opt) == opt \o win \o (IF dfs THEN " dfs" ELSE "")
-Q(opt) == "select inode, path from " \o (IF two THEN RootA \o Opts(opt) \o ", " \o RootB \o Opts(opt) ELSE RootText \o Opts(opt)) \o " into list"
+OptA(opt) == IF mix = "second" THEN "" ELSE opt
+OptB(opt) == IF mix = "first" THEN "" ELSE opt
+Q(opt) == "select inode, path from " \o (IF two THEN RootA \o Opts(OptA(opt)) \o ", " \o RootB \o Opts(OptB(opt)) ELSE RootText \o Opts(opt)) \o " into list"
 TargetClass(t) == CASE t = -1 -> "dangling" [] t = 0 -> "above-root" [] t = 1 -> "root" [] t \in {7, 9} -> "outside" [] t \in {3, 8} -> "file"
                     [] t > NS -> "link" [] OTHER -> "inside"
 RECURSIVE LinksClass(_)
@@ -67,8 +71,8 @@ LinksClass(j) == IF j > Len(links) THEN ""
                  ELSE (IF j > 1 THEN "+" ELSE "") \o TargetClass(links[j].to)
                       \o (IF links[j].to >= 0 /\ links[j].to <= NS /\ Below(W, links[j].to, NS + j) THEN "(ancestor)" ELSE "")
                       \o "/" \o links[j].style \o LinksClass(j + 1)
-Scenario == [prop |-> "C18", class |-> LinksClass(1) \o "/" \o spell \o (IF win # "" THEN "/window" ELSE "") \o (IF two THEN "/two-roots" ELSE ""),
-             world |-> W, root |-> 1, roots |-> IF two THEN <<2, 4>> ELSE <<1>>,
+Scenario == [prop |-> "C18", class |-> LinksClass(1) \o "/" \o spell \o (IF win # "" THEN "/window" ELSE "") \o (IF two THEN "/two-roots" \o (IF mix = "both" THEN "" ELSE "/option-on-" \o mix) ELSE ""),
+             world |-> W, root |-> 1, roots |-> IF two THEN <<2, 4>> ELSE <<1>>, followed |-> IF ~two THEN <<1>> ELSE IF mix = "first" THEN <<2>> ELSE IF mix = "second" THEN <<4>> ELSE <<2, 4>>,
              env |-> [tz |-> "UTC", cwd |-> IF spell = "dot" THEN 1 ELSE 0],
              runs |-> << [tag |-> "follow", ncols |-> 2, timeout |-> 10, argv |-> << Q(" symlinks") >>],
                          [tag |-> "plain", ncols |-> 2, timeout |-> 10, argv |-> << Q("") >>] >>]
